@@ -903,15 +903,27 @@ pub fn corpus_sequences(max_len: usize) -> Vec<ManifestSet> {
         Stmt::Binding("v".into(), expr("val$v")),
         Stmt::Binding("v".into(), Vec::new()),
         Stmt::Include(lit("inc.ninja")),
+        Stmt::Include(lit("inc2.ninja")),
         Stmt::Subninja(lit("sub.ninja")),
         Stmt::Comment(" note".into()),
     ];
-    // The included file binds a name the parent never uses afterwards:
-    // whether include extends the includer's scope is C11's subject.
+    // An included file is read as if its text stood in place of the include
+    // line: inc.ninja re-binds a name the parent already has (and adds none),
+    // inc2.ninja adds a name and re-binds one; the statements that follow the
+    // include in the parent see both.
     let inc = vec![
-        Stmt::Binding("iv".into(), expr("${v}I")),
+        Stmt::Binding("v".into(), expr("${v}I")),
         Stmt::Build(BuildStmt {
-            outs: vec![expr("inc$iv")],
+            outs: vec![expr("inc$v")],
+            rule: "r".into(),
+            ..Default::default()
+        }),
+    ];
+    let inc2 = vec![
+        Stmt::Binding("iv".into(), expr("${v}J")),
+        Stmt::Binding("v".into(), expr("w$iv")),
+        Stmt::Build(BuildStmt {
+            outs: vec![expr("jnc$iv")],
             rule: "r".into(),
             ..Default::default()
         }),
@@ -945,6 +957,7 @@ pub fn corpus_sequences(max_len: usize) -> Vec<ManifestSet> {
                 files: vec![
                     ("build.ninja".into(), stmts),
                     ("inc.ninja".into(), inc.clone()),
+                    ("inc2.ninja".into(), inc2.clone()),
                     ("sub.ninja".into(), sub.clone()),
                 ],
             });
@@ -1077,7 +1090,9 @@ pub fn c11_manifest(assign: &[usize], placement: Placement) -> ManifestSet {
 }
 
 /// C14: output spellings of two locations (plus a directory-like spelling).
-pub const C14_SPELLINGS: &[&str] = &["x", "./x", "d/../x", "y", "./y", "x/", "z/x", "z//x"];
+/// The last one climbs back out of 61 directories, past the canonicaliser's
+/// inline component stack, and is the location `y` again.
+pub const C14_SPELLINGS: &[&str] = &["x", "./x", "d/../x", "y", "./y", "x/", "z/x", "z//x", "q/q/q/q/q/q/q/q/q/q/q/q/q/q/q/q/q/q/q/q/q/q/q/q/q/q/q/q/q/q/q/q/q/q/q/q/q/q/q/q/q/q/q/q/q/q/q/q/q/q/q/q/q/q/q/q/q/q/q/q/q/../../../../../../../../../../../../../../../../../../../../../../../../../../../../../../../../../../../../../../../../../../../../../../../../../../../../../../../../../../../../../y"];
 
 /// All ways to fill `n` output positions from the spellings, each explicit
 /// (false) or implicit (true) -- implicit ones must come after explicit ones.
